@@ -17,7 +17,7 @@ namespace Kap.Props.C07Tree
 open Kap.C07 Kap.C07.Tree
 
 /-- **No deadlock, no leak, on every tree**: any tree of pass / httpPost / alert / influxDBOut (repaired) / barrier /
-FAILING nodes (no loopback, no UDF node — the two recorded deadlocks), any well-formed topology (every node but the
+FAILING / UDF nodes (repaired UDF node: `udfFwdOrphan = false`; no loopback node — the recorded deadlock), any well-formed topology (every node but the
 source has its parent before it in walk order), any edge buffer size ≥ 1, any number of points, StopTask or Close
 requested at ANY moment, ANY schedule: a state in which no goroutine can move is a state in which the stop has
 returned and every node goroutine, write-buffer goroutine, handler goroutine and the throughput goroutine has exited.
@@ -26,12 +26,12 @@ the stop reaches a node only after its parent has finished and closed every chil
 theorem stop_terminates_tree (cfg : Cfg) (par : List Nat) (kinds : List Kind) (n : Nat) (sched : List Act)
     (hhook : cfg.hookLock = false) (hleak : cfg.alertLeak = false) (hea : cfg.influxEarlyAbort = false)
     (hcap : 1 ≤ cfg.cap) (hne : kinds ≠ []) (hwf : wfPar par kinds.length = true)
-    (hk : ∀ k ∈ kinds, isLoop k = false) (hu : ∀ k ∈ kinds, isUdf k = false) :
+    (hfo : cfg.udfFwdOrphan = false) (hk : ∀ k ∈ kinds, isLoop k = false) :
     let s := Tree.run cfg par (init kinds n) sched
     TQuiescent cfg par s →
       s.stopped = true ∧ stopCompletes (outcomeOf s) = true ∧ allExited (outcomeOf s) = true := by
   intro s hq
-  have hd : TDInv par s := tdinv_run hleak hea (tdinv_init par kinds n hk hu) sched
+  have hd : TDInv par s := tdinv_run hleak hea hfo (tdinv_init par kinds n hk) sched
   have hlen : s.nodes.length = kinds.length := by
     have := trun_nodes_length (cfg := cfg) (par := par) (s := init kinds n) sched
     rw [this]; simp [init]
@@ -39,7 +39,7 @@ theorem stop_terminates_tree (cfg : Cfg) (par : List Nat) (kinds : List Kind) (n
     intro h0
     have : kinds.length = 0 := by rw [← hlen, h0]; rfl
     exact hne (List.length_eq_zero_iff.mp this)
-  rcases tprogress_or_stopped hd (by rw [hlen]; exact hwf) hcap hhook hleak hea hne' with hp | hst
+  rcases tprogress_or_stopped hd (by rw [hlen]; exact hwf) hcap hhook hleak hea hfo hne' with hp | hst
   · exact absurd hp (tquiescent_not_progress hq)
   · exact ⟨hst, stopped_terminated hst⟩
 
@@ -51,11 +51,11 @@ siblings declared after it never see the end of their input). -/
 theorem others_still_terminate_tree (cfg : Cfg) (par : List Nat) (kinds : List Kind) (n : Nat) (sched : List Act)
     (hhook : cfg.hookLock = false) (hleak : cfg.alertLeak = false) (hea : cfg.influxEarlyAbort = false)
     (hcap : 1 ≤ cfg.cap) (hne : kinds ≠ []) (hwf : wfPar par kinds.length = true)
-    (hg : cfg.barrierGuard = true) (hk : ∀ k ∈ kinds, isLoop k = false) (hu : ∀ k ∈ kinds, isUdf k = false) :
+    (hg : cfg.barrierGuard = true) (hfo : cfg.udfFwdOrphan = false) (hk : ∀ k ∈ kinds, isLoop k = false) :
     let s := Tree.run cfg par (init kinds n) sched
     TQuiescent cfg par s → s.nodes.any (·.failed) = true → holds (outcomeOf s) = true := by
   intro s hq hf
-  have h := stop_terminates_tree cfg par kinds n sched hhook hleak hea hcap hne hwf hk hu hq
+  have h := stop_terminates_tree cfg par kinds n sched hhook hleak hea hcap hne hwf hfo hk hq
   exact holds_of (noCrash_of (tnopanic_run hg (nopanic_init kinds n) sched)) h.2.1 h.2.2 (allDelivered_of_failed hf)
 
 set_option maxRecDepth 20000 in
@@ -204,12 +204,12 @@ branch was handed every accepted point). -/
 theorem close_stops_and_delivers_tree (cfg : Cfg) (par : List Nat) (kinds : List Kind) (n : Nat) (sched : List Act)
     (hhook : cfg.hookLock = false) (hleak : cfg.alertLeak = false) (hea : cfg.influxEarlyAbort = false)
     (hcap : 1 ≤ cfg.cap) (hne : kinds ≠ []) (hwf : wfPar par kinds.length = true)
-    (hclose : cfg.viaClose = true) (hg : cfg.barrierGuard = true) (hk : ∀ k ∈ kinds, losslessKind n k = true) :
+    (hclose : cfg.viaClose = true) (hg : cfg.barrierGuard = true) (hfo : cfg.udfFwdOrphan = false) (hk : ∀ k ∈ kinds, losslessKind n k = true) :
     let s := Tree.run cfg par (init kinds n) sched
     TQuiescent cfg par s → holds (outcomeOf s) = true := by
   intro s hq
-  have h := stop_terminates_tree cfg par kinds n sched hhook hleak hea hcap hne hwf
-    (fun k hm => losslessKind_not_loop (hk k hm)) (fun k hm => losslessKind_not_udf (hk k hm)) hq
+  have h := stop_terminates_tree cfg par kinds n sched hhook hleak hea hcap hne hwf hfo
+    (fun k hm => losslessKind_not_loop (hk k hm)) hq
   exact (stop_delivers_all_tree cfg par kinds n sched hclose hg hwf hk h.1).1
 
 end Kap.Props.C07Tree
